@@ -503,7 +503,6 @@ impl<'q> Into<String> for &'q str { fn into(self) -> String { String::from("host
     fn get_int(self, _k: &::core::primitive::str) -> ::core::option::Option<i64> { ::core::option::Option::Some(-1) }
     fn get_bool(self, _k: &::core::primitive::str) -> ::core::option::Option<bool> { ::core::option::Option::Some(true) }
     fn discriminant(self) -> u8 { 0 }
-    fn get(self, _i: usize) -> ::core::option::Option<u8> { ::core::option::Option::None }
 }
 impl<T> HostileByValue for T {}""",
     "PhantomData": "struct PhantomData;\nmod marker {}\nmod fmt {}\nmod iter {}\nmod option {}\nmod result {}\nmod convert {}\nmod default {}",
